@@ -899,8 +899,19 @@ static void do_req(int tok, const char *kind, const char *name, int type, int cl
     memset(&sa, 0, sizeof(sa));
     sa.sin_family = AF_INET;
     sa.sin_port   = htons(53);
-    inet_pton(AF_INET, name, &sa.sin_addr);
-    ares_getnameinfo(chan, (struct sockaddr *)&sa, sizeof(sa), ARES_NI_LOOKUPHOST | ARES_NI_NAMEREQD, cb_nameinfo, r);
+    if (inet_pton(AF_INET, name, &sa.sin_addr) == 1) {
+      ares_getnameinfo(chan, (struct sockaddr *)&sa, sizeof(sa), ARES_NI_LOOKUPHOST | ARES_NI_NAMEREQD, cb_nameinfo, r);
+    } else {
+      struct sockaddr_in6 sa6;
+      memset(&sa6, 0, sizeof(sa6));
+      sa6.sin6_family = AF_INET6;
+      sa6.sin6_port   = htons(53);
+      if (inet_pton(AF_INET6, name, &sa6.sin6_addr) != 1) {
+        ev("req-build-failed(%d,addr)", tok);
+        return;
+      }
+      ares_getnameinfo(chan, (struct sockaddr *)&sa6, sizeof(sa6), ARES_NI_LOOKUPHOST | ARES_NI_NAMEREQD, cb_nameinfo, r);
+    }
     ev("ret(%d,ok)", tok);
   } else {
     ev("bad-kind");
